@@ -476,7 +476,9 @@ def one_case(ctx, rng, idx, out):
                     ctx.count("corr:delta-model-outside-universe")
             shared = _shares_mutable(rr["result"])
             ctx.count("dump:with-shared-mutable-container" if shared else "dump:no-shared-mutable-container")
-            out["acc"].append(("(%s, %s)" % (P.prog_coq(ops), pcoq), shared, dict(case, corr="accepts", generation=gen_i + 1, shared=shared)))
+            # the payload as THIS dump wrote it (set iteration order is that of the dumped object)
+            out["acc"].append(("(%s, %s)" % (P.prog_coq(ops), pcoq if gen_i == 0 else pv_coq(d2.diff)), shared,
+                               dict(case, corr="accepts", generation=gen_i + 1, shared=shared)))
             memo_kind, prev = {}, None
             for o in ops:
                 ctx.count("dump-op:" + o[0])
